@@ -559,6 +559,11 @@ func (db *RockDB) ZIncrBy(ts int64, key []byte, delta float64, member []byte) (f
 	}
 
 	score = oldScore + delta
+	if v != nil && score == oldScore {
+		// the score index entry stays where it is; the delete of the old entry below would
+		// remove the very key that was just put and the member would vanish from the index
+		return score, nil
+	}
 
 	sk := zEncodeScoreKey(false, false, table, rk, member, score)
 	wb.Put(sk, []byte{})
